@@ -75,7 +75,7 @@ def rule_branch(ctx):
     sm = _drv_method(p, "send_message")
     for arg, expect_calls in ((Const(None), 0), (Obj(None, label="<msg>"), 1)):
         def run(it: Interp):
-            drv, _ = make_driver(p, [])
+            drv = build_drivers(it, p, names=(("DevA", "DEVA"),), router=Obj(None, label="<router>"))["DEVA"]
             it.drv = drv
             return it.run_function(Fn(sm, drv), [arg], {})
 
@@ -365,60 +365,160 @@ def rule_sibling(ctx):
 # 'accepted by the library's own parser and read back unchanged' needs registry closure and constructor symmetry
 IMPORTS = [('C03', 'C03.REG'), ('C03', 'C03.SYM')]
 
+_META_SRC = '''
+from indi.device import Driver, properties
+
+
+class DevA(Driver):
+    g1 = properties.Group(
+        "GRP1",
+        vectors=dict(
+            v1=properties.{kind}Vector(
+                "V1", label="LabelV1", state="Busy", perm="ro", timeout=7, {rule1}
+                elements=dict(a=properties.{kind}("A", label="LabelA", {ea}), b=properties.{kind}("B", label="LabelB", {eb})),
+            ),
+            v2=properties.{kind}Vector(
+                "V2", label="LabelV2", state="Alert", perm="wo", timeout=9, {rule2}
+                elements=dict(a=properties.{kind}("A", label="LabelA2", {ea2})),
+            ),
+        ),
+    )
+    g2 = properties.Group(
+        "GRP2",
+        vectors=dict(v3=properties.{kind}Vector("V3", label="LabelV3", state="Idle", elements=dict(c=properties.{kind}("C", {ec})))),
+    )
+'''
+_META_EL = {
+    "Number": {"A": dict(format="%5.2f", min=1, max=9, step=2, default=3.5), "B": dict(format="%3.0f", min=-4, max=4, step=1, default=2.0), "A2": dict(format="%e", min=10, max=20, step=5, default=15.0), "C": dict(default=1.0)},
+    "Text": {"A": dict(default="txtA"), "B": dict(default="txtB"), "A2": dict(default="txtA2"), "C": dict(default="txtC")},
+    "Switch": {"A": dict(default="On"), "B": dict(default="Off"), "A2": dict(default="On"), "C": dict(default="Off")},
+    "Light": {"A": dict(default="Busy"), "B": dict(default="Alert"), "A2": dict(default="Idle"), "C": dict(default="Ok")},
+    "BLOB": {"A": dict(), "B": dict(), "A2": dict(), "C": dict()},
+}
+_META_VEC = {
+    "V1": dict(group="GRP1", label="LabelV1", state="Busy", perm="ro", timeout=7, rule="AtMostOne", elements=[("A", "LabelA", "A"), ("B", "LabelB", "B")]),
+    "V2": dict(group="GRP1", label="LabelV2", state="Alert", perm="wo", timeout=9, rule="AnyOfMany", elements=[("A", "LabelA2", "A2")]),
+}
+
+
+_META_CUR_STATE = {"V1": "Ok", "V2": "Idle"}
+_META_CUR = {
+    "Number": [(("V1", "A"), 4.25), (("V1", "B"), -1.5), (("V2", "A"), 12.5)],
+    "Text": [(("V1", "A"), "curA"), (("V1", "B"), "curB"), (("V2", "A"), "curA2")],
+    "Switch": [(("V1", "B"), "On"), (("V2", "A"), "Off")],  # AtMostOne: B on clears A
+    "Light": [(("V1", "A"), "Ok"), (("V1", "B"), "Idle"), (("V2", "A"), "Alert")],
+    "BLOB": [],
+}
+_META_NOW = {
+    "Number": {("V1", "A"): 4.25, ("V1", "B"): -1.5, ("V2", "A"): 12.5},
+    "Text": {("V1", "A"): "curA", ("V1", "B"): "curB", ("V2", "A"): "curA2"},
+    "Switch": {("V1", "A"): "Off", ("V1", "B"): "On", ("V2", "A"): "Off"},
+    "Light": {("V1", "A"): "Ok", ("V1", "B"): "Idle", ("V2", "A"): "Alert"},
+}
+
+
 def rule_meta(ctx):
-    """Every field of an emitted definition/update comes from the source the protocol means: the vector's own
-    name/label/state/perm/rule/timeout, its group's name, its device's name; element fields from the element's
-    definition and the value property (numbers rendered with the element's own format)."""
+    """Every field of an emitted definition/update carries the value the protocol means: the vector's own
+    name/label/state/perm/rule/timeout, its group's name, its device's name; element fields from the element's own
+    definition and value (numbers rendered with the element's own format).  Decided by abstract evaluation on a driver
+    constructed from an analysis-only definition in which every such field is distinct across the three properties and
+    whose state and element values have been moved away from the declared defaults through the public setters."""
     p = ctx.p
-    vec_src = {
-        "device": ("self.device.name",), "name": ("self._definition.name",), "group": ("self._group.name", "self.group.name"),
-        "label": ("self._definition.label",), "state": ("self._state", "self.state_"), "perm": ("self._definition.perm",),
-        "rule": ("self._definition.rule",), "timeout": ("self._definition.timeout",),
-    }
     n = 0
+
+    def kw(e):
+        return ", ".join(f"{k}={v!r}" for k, v in e.items())
+
+    def pol(fi, node):
+        m = fi.module.name
+        if m.startswith("indi.device.properties.instance."):
+            return fi.name not in ("raise_event",)
+        if m == "indi.message.checks":
+            return True
+        return fi.kind == "getter" and m.startswith("indi.device")
+
     for kind in KINDS:
+        els = _META_EL[kind]
+        src = _META_SRC.format(kind=kind, rule1='rule="AtMostOne",' if kind == "Switch" else "", rule2='rule="AnyOfMany",' if kind == "Switch" else "",
+                               ea=kw(els["A"]), eb=kw(els["B"]), ea2=kw(els["A2"]), ec=kw(els["C"]))
         vcls = p.cls(f"{IV}.{kind}Vector")
         for meth in ("to_def_message", "to_set_message"):
             f = vcls.find_method(meth)
+            inst = f"{f.short}[{kind}Vector]"
             bad = False
-            for pa in run_method(p, f, self_val=Term("param", "self", hint=vcls)):
-                v = pa.value
-                if pa.outcome != "return" or not (isinstance(v, Term) and v.op == "call" and isinstance(v.args[0], Cls)):
-                    continue
-                for k, x in v.args[2]:
-                    if k in vec_src:
-                        n += 1
-                        if show(x) not in vec_src[k]:
-                            ctx.violated("C07.META", f"{f.short}[{kind}Vector]", f"{v.args[0].ci.name}({k}=...) is fed from {show(x)[:50]} instead of {vec_src[k][0]}", fi=f, text=f"{kind}:{meth}:{k}")
-                            bad = True
-                    if k == "timestamp" and "now()" not in show(x):
-                        ctx.violated("C07.META", f"{f.short}[{kind}Vector]", f"timestamp is {show(x)[:40]}, not the current time", fi=f, text=f"{kind}:{meth}:timestamp")
+            for vname, want in _META_VEC.items():
+                def run(it: Interp):
+                    drivers = build_drivers(it, p, names=(("DevA", "DEVA"),), src=src)
+                    vec = [o for o in _reachable_objs(drivers["DEVA"]) if o.label == f"vec:DEVA.{vname}"]
+                    if len(vec) != 1:
+                        raise Undecided(f"constructed driver does not hold exactly one vector {vname}")
+                    # move state and values away from the declared defaults through the public setters
+                    by = {o.label: o for o in _reachable_objs(drivers["DEVA"])}
+                    for vn_, st_ in _META_CUR_STATE.items():
+                        it.run_function(Fn(vcls.find_setter("state_"), by[f"vec:DEVA.{vn_}"]), [Const(st_)], {})
+                    for (vn_, en_), val_ in _META_CUR[kind]:
+                        el = by[f"el:DEVA.{vn_}.{en_}"]
+                        it.run_function(Fn(el.cls.find_setter("value"), el), [Const(val_)], {})
+                    del it.events[:]
+                    return it.run_function(Fn(f, vec[0]), [], {})
+
+                paths = explore(p, run, {"inline": pol, "max_depth": 10})
+                ctx.paths_enumerated += len(paths)
+                for pa in paths:
+                    v = pa.value
+                    if pa.outcome != "return" or not (isinstance(v, Term) and v.op == "call" and isinstance(v.args[0], Cls)):
+                        ctx.violated("C07.META", inst, f"{meth} of enabled property {vname} yields {show(v)[:60] if v is not None else pa.outcome} instead of a message", fi=f, text=f"{kind}:{meth}:no-message")
                         bad = True
-            if not bad:
-                ctx.holds("C07.META", f"{f.short}[{kind}Vector]", "every metadata field comes from the vector's own definition/state/group/device", fi=f)
-    el_src = {"name": "self._definition.name", "label": "self._definition.label", "format": "self._definition.format", "min": "self._definition.min", "max": "self._definition.max", "step": "self._definition.step"}
-    for kind in KINDS:
-        ecls = p.cls(f"{IE}.{kind}")
-        for meth in ("to_def_message", "to_set_message"):
-            f = ecls.find_method(meth)
-            bad = False
-            for pa in run_method(p, f, self_val=Term("param", "self", hint=ecls)):
-                v = pa.value
-                if pa.outcome != "return" or not (isinstance(v, Term) and v.op == "call" and isinstance(v.args[0], Cls)):
-                    continue
-                for k, x in v.args[2]:
-                    if k in el_src and (k in ("name", "label") or kind == "Number"):
-                        n += 1
-                        if show(x) != el_src[k]:
-                            ctx.violated("C07.META", f"{f.short}[{kind}]", f"{v.args[0].ci.name}({k}=...) is fed from {show(x)[:50]} instead of {el_src[k]}", fi=f, text=f"{kind}:{meth}:{k}")
+                        continue
+                    mk = dict(v.args[2])
+                    exp = {"device": "DEVA", "name": vname, "group": want["group"], "label": want["label"], "state": _META_CUR_STATE[vname], "perm": want["perm"], "timeout": want["timeout"], "rule": want["rule"]}
+                    if kind == "Light":
+                        exp.pop("perm"), exp.pop("timeout")  # lights are read-only: the definition drops both
+                    for k, x in mk.items():
+                        if k in exp:
+                            n += 1
+                            if not (isinstance(x, Const) and x.v == exp[k]):
+                                ctx.violated("C07.META", inst, f"{v.args[0].ci.name}({k}=...) of property {vname} carries {show(x)[:50]}, the property's own {k} is {exp[k]!r} (three properties with distinct metadata constructed)", fi=f, text=f"{kind}:{meth}:{k}")
+                                bad = True
+                        if k == "timestamp" and "now()" not in show(x):
+                            ctx.violated("C07.META", inst, f"timestamp is {show(x)[:40]}, not the current time", fi=f, text=f"{kind}:{meth}:timestamp")
                             bad = True
-                    if k == "value" and kind == "Number":
-                        if not show(x).startswith("num_to_str(self.value, self._definition.format)"):
-                            ctx.violated("C07.META", f"{f.short}[{kind}]", f"the number is rendered as {show(x)[:60]}, not with the element's own format", fi=f, text=f"Number:{meth}:value-format")
+                    ch = mk.get("children")
+                    items = ch.items if isinstance(ch, (Lst, Tup)) else []
+                    if len(items) != len(want["elements"]):
+                        ctx.violated("C07.META", inst, f"property {vname} renders {len(items)} parts, it has {len(want['elements'])} enabled elements", fi=f, text=f"{kind}:{meth}:parts")
+                        bad = True
+                        continue
+                    for x, (en, el_label, ekey) in zip(items, want["elements"]):
+                        if not (isinstance(x, Term) and x.op == "call" and isinstance(x.args[0], Cls)):
+                            ctx.violated("C07.META", inst, f"part of {vname}.{en} is {show(x)[:50]}, not a message part", fi=f, text=f"{kind}:{meth}:part-shape")
                             bad = True
+                            continue
+                        ek = dict(x.args[2])
+                        eexp = {"name": en, "label": el_label}
+                        if kind == "Number":
+                            eexp.update({k_: els[ekey][k_] for k_ in ("format", "min", "max", "step")})
+                        for k, y in ek.items():
+                            if k in eexp:
+                                n += 1
+                                if not (isinstance(y, Const) and y.v == eexp[k]):
+                                    ctx.violated("C07.META", inst, f"{x.args[0].ci.name}({k}=...) of element {vname}.{en} carries {show(y)[:50]}, the element's own {k} is {eexp[k]!r}", fi=f, text=f"{kind}:{meth}:el-{k}")
+                                    bad = True
+                        if "value" in ek and kind != "BLOB":
+                            n += 1
+                            y = ek["value"]
+                            own = _META_NOW[kind][(vname, en)]
+                            if kind == "Number":
+                                okv = isinstance(y, Term) and is_call(y, func="num_to_str") and len(y.args[1]) == 2 and all(isinstance(a_, Const) for a_ in y.args[1]) and y.args[1][0].v == own and y.args[1][1].v == els[ekey]["format"]
+                                if not okv:
+                                    ctx.violated("C07.META", inst, f"the number of {vname}.{en} is rendered as {show(y)[:70]}, expected num_to_str({own!r}, {els[ekey]['format']!r}) - its own value in its own format", fi=f, text=f"Number:{meth}:value-format")
+                                    bad = True
+                            elif not (isinstance(y, Const) and y.v == own):
+                                ctx.violated("C07.META", inst, f"{x.args[0].ci.name}(value=...) of element {vname}.{en} carries {show(y)[:50]}, the element's own value is {own!r}", fi=f, text=f"{kind}:{meth}:el-value")
+                                bad = True
             if not bad:
-                ctx.holds("C07.META", f"{f.short}[{kind}]", "element fields come from the element's definition; numbers rendered with the element's format", fi=f)
-    ctx.floor("C07.META", "metadata fields checked", n, 50)
+                ctx.holds("C07.META", inst, "every metadata field and every part carries the property's / element's own values", fi=f)
+    ctx.floor("C07.META", "metadata fields checked", n, 150)
 
 
 RULES = [
